@@ -62,7 +62,13 @@ func VerifC16Request() {
 			enc = "gzip" // labelled gzip, arbitrary bytes
 		}
 	}
-	spec := msg.Spec{Framing: framing, Wire: wire, Encoding: enc, ContentType: ct, Query: "a=1&b=two", Cookie: "sid=abc"}
+	// the query string: plain, or with escapes in names and values (the entry lists the decoded
+	// parameters; the URL keeps the text the client sent)
+	rawq, qn, qv := "a=1&b=two", [2]string{"a", "b"}, [2]string{"1", "two"}
+	if vf.Choice("query-escapes", 2) == 1 {
+		rawq, qn, qv = "f%5Bn%5D=x%20y&first+name=A+B", [2]string{"f[n]", "first name"}, [2]string{"x y", "A B"}
+	}
+	spec := msg.Spec{Framing: framing, Wire: wire, Encoding: enc, ContentType: ct, Query: rawq, Cookie: "sid=abc"}
 	req, _ := msg.NewRequest(spec)
 	withBody := vf.Choice("capture", 2) == 1
 	hr, err := NewRequest(req, withBody)
@@ -70,7 +76,7 @@ func VerifC16Request() {
 	if err != nil {
 		return
 	}
-	vf.Assert(hr.Method == "POST" && hr.URL == "http://example.com/p?a=1&b=two" && hr.HTTPVersion == "HTTP/1.1", "method-url-version")
+	vf.Assert(hr.Method == "POST" && hr.URL == "http://example.com/p?"+rawq && hr.HTTPVersion == "HTTP/1.1", "method-url-version")
 	vf.Assert(zzhasHeader(hr.Headers, "Host", "example.com"), "host-header-listed")
 	if framing == msg.FrameChunked {
 		vf.Assert(zzhasHeader(hr.Headers, "Transfer-Encoding", "chunked"), "transfer-encoding-listed")
@@ -81,7 +87,7 @@ func VerifC16Request() {
 	vf.Assert(zzhasHeader(hr.Headers, "X-Multi", "a") && zzhasHeader(hr.Headers, "X-Multi", "b"), "multi-valued-header-listed")
 	vf.Assert(len(hr.QueryString) == 2, "query-parameters")
 	for _, q := range hr.QueryString {
-		vf.Assert((q.Name == "a" && q.Value == "1") || (q.Name == "b" && q.Value == "two"), "query-parameter-values")
+		vf.Assert((q.Name == qn[0] && q.Value == qv[0]) || (q.Name == qn[1] && q.Value == qv[1]), "query-parameter-values")
 	}
 	vf.Assert(len(hr.Cookies) == 1 && hr.Cookies[0].Name == "sid" && hr.Cookies[0].Value == "abc", "cookies")
 	hasBody := len(wire) > 0 || framing == msg.FrameChunked
